@@ -216,6 +216,17 @@ def build_harness(race=False):
     return rc == 0, o
 
 
+def _big_stack():
+    """the extracted renderer and evaluator recurse on the depth of the tree: give the driver the largest stack the system allows"""
+    import resource
+    soft, hard = resource.getrlimit(resource.RLIMIT_STACK)
+    want = hard if hard != resource.RLIM_INFINITY else 4 << 30
+    try:
+        resource.setrlimit(resource.RLIMIT_STACK, (want, hard))
+    except Exception:
+        pass
+
+
 def run_model(run_dir, shards=None):
     """run ocaml/mdriver over run_dir/model_in.sexp (sharded), write model_out.txt; returns list of mismatching line indices"""
     shards = shards or NCPU
@@ -234,7 +245,7 @@ def run_model(run_dir, shards=None):
     while i < n:
         chunk = lines[i:i + per]
         inp = b"\n".join(deft + chunk) + b"\n"
-        p = subprocess.Popen([drv], stdin=subprocess.PIPE, stdout=subprocess.PIPE, stderr=subprocess.PIPE)
+        p = subprocess.Popen([drv], stdin=subprocess.PIPE, stdout=subprocess.PIPE, stderr=subprocess.PIPE, preexec_fn=_big_stack)
         procs.append((p, len(deft), inp))
         deft = deft + [l for l in chunk if l.startswith(b"(deftype")]
         i += per
